@@ -312,9 +312,10 @@ def run_check(prop, tier, seed):
     }
     (ROOT / "evidence").mkdir(exist_ok=True)
     evpath = ROOT / "evidence" / f"{prop}.json"
-    with open(str(evpath) + ".tmp", "w") as f:
+    tmp_ev = f"{evpath}.{os.getpid()}.tmp"
+    with open(tmp_ev, "w") as f:
         json.dump(strict_json(evidence, max_len=10**9), f, indent=1, sort_keys=True)
-    os.replace(str(evpath) + ".tmp", evpath)
+    os.replace(tmp_ev, evpath)
 
     # 4. clean up scratch
     import shutil
